@@ -4,7 +4,7 @@
    configuration accepted by the library (pwl_valid, below), for EVERY number
    of Dykstra iterations p_iters unless stated otherwise.
    keypoint_outputs w = cumsum w. *)
-From TFL Require Import Model.PWLProject Proofs.PWLProject.
+From TFL Require Import Model.PWLProject Proofs.PWLProject Proofs.PWLSqueezeRoom.
 Open Scope Q_scope.
 
 (* Vocabulary (defined in Proofs/PWLProject.v):
@@ -48,6 +48,71 @@ Theorem C04_bounds_refuted_monotone_convex :
     exists s, In s (keypoint_outputs (pwl_project_col c w)) /\ s < p_min c.
 Proof. exact pwl_bounds_refuted_monotone_convex. Qed.
 Print Assumptions C04_bounds_refuted_monotone_convex.
+
+(* D2 characterised exactly.  Vocabulary (Proofs/PWLSqueezeRoom.v):
+   pwl_loop_bias c bias hs := d_bias (dyk_iter c (p_iters c) (dyk_init bias hs))
+     - the bias of the state that enters _finalize_constraints; the approximate
+       monotonicity / convexity projections before the squeeze only touch heights,
+       so this is the bias _squeeze_by_scaling sees (and returns unchanged).
+   squeeze_bias_has_room c b :=
+     (p_mono c = 1  -> (p_cmin c <> BNone -> p_min c <= b) /\
+                       (p_cmax c <> BNone -> qlt (1#1000) (p_max c - b) = true)) /\
+     (p_mono c = -1 -> (p_cmax c <> BNone -> b <= p_max c) /\
+                       (p_cmin c <> BNone -> qlt (1#1000) (- p_min c - - b) = true))
+     - the bias is inside the near bound and the squeeze's own test  delta > 0.001
+       (delta exactly as the model's squeeze_inc computes it) succeeds.
+   squeeze_bias_no_room c b := the explicit negation:
+     (p_mono c = 1  /\ ((p_cmin c <> BNone /\ b < p_min c) \/ (p_cmax c <> BNone /\ p_max c - b <= 1#1000))) \/
+     (p_mono c = -1 /\ ((p_cmax c <> BNone /\ p_max c < b) \/ (p_cmin c <> BNone /\ b - p_min c <= 1#1000))).
+   squeeze_far_room c b := only the room towards the bound the function runs to. *)
+Theorem C04_bounds_monotone_convex_when_bias_has_room : forall c n bias hs, pwl_valid c n -> length hs = n ->
+  p_mono c <> 0%Z -> p_conv c <> 0%Z ->
+  squeeze_bias_has_room c (pwl_loop_bias c bias hs) ->
+  (p_cmin c <> BNone -> Forall (fun s => p_min c <= s) (keypoint_outputs (pwl_project_col c (bias :: hs)))) /\
+  (p_cmax c <> BNone -> Forall (fun s => s <= p_max c) (keypoint_outputs (pwl_project_col c (bias :: hs)))).
+Proof. exact pwl_bounds_monotone_convex_room. Qed.
+Print Assumptions C04_bounds_monotone_convex_when_bias_has_room.
+
+(* contrapositive: a keypoint output outside the bounds means the squeeze had no
+   room (second conjunct: which inequality failed) *)
+Theorem C04_bounds_monotone_convex_failure_needs_no_room : forall c n bias hs, pwl_valid c n -> length hs = n ->
+  p_mono c <> 0%Z -> p_conv c <> 0%Z ->
+  (exists s, In s (keypoint_outputs (pwl_project_col c (bias :: hs))) /\
+             ((p_cmin c <> BNone /\ s < p_min c) \/ (p_cmax c <> BNone /\ p_max c < s))) ->
+  ~ squeeze_bias_has_room c (pwl_loop_bias c bias hs) /\ squeeze_bias_no_room c (pwl_loop_bias c bias hs).
+Proof. exact pwl_bounds_monotone_convex_failure. Qed.
+Print Assumptions C04_bounds_monotone_convex_failure_needs_no_room.
+
+(* with at least one Dykstra iteration the bounds step has already put the bias
+   inside the near bound, so only the room towards the far bound matters *)
+Theorem C04_bounds_monotone_convex_far_room_suffices : forall c n bias hs, pwl_valid c n -> length hs = n ->
+  p_mono c <> 0%Z -> p_conv c <> 0%Z -> (1 <= p_iters c)%nat ->
+  squeeze_far_room c (pwl_loop_bias c bias hs) ->
+  (p_cmin c <> BNone -> Forall (fun s => p_min c <= s) (keypoint_outputs (pwl_project_col c (bias :: hs)))) /\
+  (p_cmax c <> BNone -> Forall (fun s => s <= p_max c) (keypoint_outputs (pwl_project_col c (bias :: hs)))).
+Proof. exact pwl_bounds_far_room. Qed.
+Print Assumptions C04_bounds_monotone_convex_far_room_suffices.
+
+(* C04_bounds without any class guard: for EVERY accepted configuration the
+   bounds hold unless it is monotone + convex and the squeeze has no room *)
+Theorem C04_bounds_unless_squeeze_has_no_room : forall c n bias hs, pwl_valid c n -> length hs = n ->
+  (p_mono c <> 0%Z -> p_conv c <> 0%Z -> squeeze_bias_has_room c (pwl_loop_bias c bias hs)) ->
+  (p_cmin c <> BNone -> Forall (fun s => p_min c <= s) (keypoint_outputs (pwl_project_col c (bias :: hs)))) /\
+  (p_cmax c <> BNone -> Forall (fun s => s <= p_max c) (keypoint_outputs (pwl_project_col c (bias :: hs)))).
+Proof. exact pwl_bounds_unless_no_room. Qed.
+Print Assumptions C04_bounds_unless_squeeze_has_no_room.
+
+(* hypotheses satisfiable: an increasing convex column in [0, 4] with room; the D2
+   witness above is out of bounds and (hence) has no room *)
+Example C04_room_hypotheses_satisfiable :
+  pwl_valid room_cfg 2 /\ p_mono room_cfg <> 0%Z /\ p_conv room_cfg <> 0%Z /\
+  squeeze_bias_has_room room_cfg (pwl_loop_bias room_cfg 1 [2; 3]).
+Proof. exact room_example. Qed.
+Example C04_no_room_hypotheses_satisfiable :
+  pwl_valid d2_cfg 2 /\ p_mono d2_cfg <> 0%Z /\ p_conv d2_cfg <> 0%Z /\
+  out_of_bounds d2_cfg (pwl_project_col d2_cfg [-129#4; -10; 55#4]) /\
+  squeeze_bias_no_room d2_cfg (pwl_loop_bias d2_cfg (-129#4) [-10; 55#4]).
+Proof. exact no_room_example. Qed.
 
 (* Convexity (slopes h_i / l_i ordered), division-free. *)
 Theorem C04_convex : forall c n bias hs, pwl_valid c n -> length hs = n ->
